@@ -60,6 +60,11 @@ fn result<S: Src>(s: &mut S, ns: NamespaceId, peer: EndpointId) -> Result<SyncFi
     Ok(SyncFinished { namespace: ns, peer, outcome: Default::default(), timings: Default::default() })
 }
 
+/// a session result that is an error (built once per call: costs CBMC about 12 s each, so only the families that need it use it)
+fn failed_result() -> Result<SyncFinished> {
+    Err(anyhow::anyhow!("session failed"))
+}
+
 /// An idle slot that already saw a session (a reachable state).  Starting from `Some(..)` keeps
 /// the value that `finish` drops concrete (`Ok` with an empty head map) on every path, so CBMC
 /// never walks B-tree nodes behind a merged pointer (DESIGN.md P12).
@@ -337,7 +342,7 @@ pub fn c11_redial_race<S: Src, const Y_FINISHED_FIRST: bool>(s: &mut S) {
 
 /// Family D: news reported while a session is running is refused and leads to exactly one
 /// follow-up dial when that session finishes (on the dialing and on the accepting side).
-pub fn c11_resync<S: Src>(s: &mut S) {
+pub fn c11_resync<S: Src, const FAILS: bool>(s: &mut S) {
     let ns = NamespaceId::from(&[1u8; 32]);
     let (idx, idy) = two_ids(s);
     let mut x = Node { id: idx, peer: fresh_peer(ns) };
@@ -364,9 +369,10 @@ pub fn c11_resync<S: Src>(s: &mut S) {
     if other_tried && !matches!(other_x, SyncReason::SyncReport) {
         ck!(s, !x.peer.start_connect(other_x), "a dial is refused while a session is running");
     }
-    // both ends finish
-    let rx = result(s, ns, y.id);
-    let ry = result(s, ns, x.id);
+    // both ends finish — with success, or (FAILS) the session ends with an error on both sides: a refused report is owed its
+    // follow-up dial either way
+    let rx = if FAILS { failed_result() } else { result(s, ns, y.id) };
+    let ry = if FAILS { failed_result() } else { result(s, ns, x.id) };
     let fx = dial_ends(&mut x, r1, false, rx);
     let fy = y.peer.finish(&Origin::Accept, ry).map(|(_, r)| r);
     cv!(s, kx > 0 && ky == 0, "c11_resync: report at the dialer only");
